@@ -22,7 +22,7 @@ def check_instance(inst, F, ctx, extra):
         check_step(inst, V, ctx, I.body(it['path']), direction, feature, feature)
     if did:
         ctx.nontrivial.add(tuple(inst.rec['classes'][:5]))
-        if not inst.gapless:
+        if 'T4' in V.used:
             tables.check_tables(inst, F, ctx, {'T4'})
         if len(ctx.samples) < 4 and not inst.gapless and 'next' in inst.feats:
             ctx.sample({'instance': inst.describe()[:300], 'successor_function_decided_on': 'all %d variants' % len(inst.S), 'runs': inst.runs[:6]})
